@@ -149,9 +149,9 @@ def run(tier):
             lls, inds, conts, sps = [1, 2, 3, 5], [0, 1], ["", " &"], [" "]
         n_err = 0
         pay = list(payload_space(alpha, maxlen))
-        if thorough and len(pay) * len(lls) * len(inds) * len(conts) * len(sps) > 1500000:
+        if thorough and len(pay) * len(lls) * len(inds) * len(conts) * len(sps) > 600000:
             rng.shuffle(pay)
-            pay = pay[:1500000 // (len(lls) * len(inds) * len(conts) * len(sps))]
+            pay = pay[:600000 // (len(lls) * len(inds) * len(conts) * len(sps))]
             exhaustive = False
         else:
             exhaustive = True
